@@ -383,7 +383,18 @@ def dtab_necessity(ctx, prog):
 
 dtab_necessity.rule_id = "C05.DTAB-necessity"
 
-RULES = [wmc_user, guard_insert, pdom_release, bracket, guard_transitions, guard_sentinel, dtab_necessity]
+def dom_invalid_last(ctx, prog):
+    """invalidate_node unlinks its children (remove_children) while the kind payload is still visible: after
+    is_valid is cleared kind() is None and the inputs keep a dead parent for ever (they stay necessary and keep being
+    computed). Same rule as C03.DOM-invalid-last."""
+    from .engine import run_relabelled
+    from .c03 import dom_invalid_last as f
+    run_relabelled(ctx, prog, f, "C03.DOM-invalid-last", "C05.DOM-invalid-last")
+
+
+dom_invalid_last.rule_id = "C05.DOM-invalid-last"
+
+RULES = [wmc_user, guard_insert, pdom_release, bracket, guard_transitions, guard_sentinel, dtab_necessity, dom_invalid_last]
 
 # control signature of the bookkeeping effects this property depends on (rules/ctrlsig.py)
 from .ctrlsig import make_rule as _ctrl_rule  # noqa: E402
